@@ -493,6 +493,9 @@ def check_labels(chk, seed, tier):
                                   replay=rp, what=f"{label}: local part is not delta - int_0^x sing")
 
 
+SHARDABLE = True
+
+
 def run(chk, only=None):
     tier, seed = chk.tier, chk.seed
     chk.bounds = {
@@ -508,12 +511,12 @@ def run(chk, only=None):
     chk.assume("floats are read as exact rationals (DESIGN §1); rounding is outside the claim",
                "NUMBA_DISABLE_JIT=1: Python semantics of the kernels",
                "atoms log/sqrt/Li2 are free reals constrained by sound facts; unsat verdicts hold for the true functions")
-    if only in (None, "generic"):
+    if only in (None, "generic") and chk.first:
         check_generic(chk, seed)
-    if only in (None, "labels"):
+    if only in (None, "labels") and chk.first:
         check_labels(chk, seed, tier)
     items, import_failures = class_items(tier)
-    for fam, mname, exc in import_failures:
+    for fam, mname, exc in import_failures if chk.first else []:
         key = f"import:{fam}.{mname}:{type(exc).__name__}"
         chk.report(key, f"module {fam}.{mname} cannot be imported: {type(exc).__name__}", "import",
                    dict(module=f"yadism.coefficient_functions.{fam}.{mname}"))
@@ -521,6 +524,8 @@ def run(chk, only=None):
     if only in (None, "classes") or (only and only.startswith("cls:")):
         for it in items:
             if only and only.startswith("cls:") and only[4:] not in it[0]:
+                continue
+            if not chk.mine(it[0]):
                 continue
             try:
                 n += check_item(chk, it, seed, tier)
@@ -530,6 +535,8 @@ def run(chk, only=None):
         ditems = [it for it in items if it[6] in (3, 6)] if tier == "thorough" else [it for it in items if it[6] == 3]
         for it in ditems:
             if only and only.startswith("def:") and only[4:] not in it[0]:
+                continue
+            if not chk.mine("def" + it[0]):
                 continue
             try:
                 check_defined(chk, it, seed, tier)
